@@ -215,8 +215,9 @@ def main(run):
         "at-most-once is proved for a server that answers a request once and for exchanges that start "
         "when no datagram of an earlier exchange is in flight; outside these the code delivers twice "
         "(known findings C07-F1, C07-F2) - see notes/C07.md",
-        "liveness is proved for runs in which the 16-bit message ids do not wrap (fewer than 65536 "
-        "messages per endpoint); across a wrap the code can lose a request (known finding C07-F5)",
+        "liveness is proved for runs in which the 16-bit message ids of the server's session do not wrap "
+        "(fewer than 65536 messages of the peer); across such a wrap the code can lose a request (known "
+        "finding C07-F5b); the client's own ids may wrap (C07-F5a fixed)",
         "retransmission timing is C06's; here only the retransmission counter is modelled"]
     run.prove()
     model = vlib.build_model()
@@ -271,9 +272,10 @@ def main(run):
                                dflt=r.choice([0, 3, 40, 900]), nstart=r.choice([0, 0, 4])),
                     "random-" + kind, True))
 
-    # ------------------------------------------------------------ message-id wrap (finding C07-F5)
+    # ------------------------------------------------------------ message-id wrap (findings C07-F5a/b)
     if not replay_only:
-        wl = ["exw 65535 100", "exw 65534 100", "exw 65535 40000", "exw 300 65400"]
+        wl = ["exw 65535 100 0", "exw 65534 100 0", "exw 65535 40000 0", "exw 300 65400 0",
+              "exw 65535 100 1", "exw 65534 100 1", "exw 300 65400 1"]
         wm, wc, _ = tie.run_both(model, drv, wl)
         for ln, a, b in zip(wl, wm, wc):
             run.count(ln, True)
@@ -284,10 +286,10 @@ def main(run):
                             % (ln, a, b), "tie", no_input=True)
             f = dict(kv.split("=") for kv in b.split()) if "=" in b else {}
             if f and int(f.get("resp_last", 1)) + int(f.get("nack_last", 0)) == 0 and f.get("queued") == "0":
-                if not (ln.startswith("exw 65535") and
-                        V.known("C07-F5", "%s -> %s" % (ln, b), "exw")):
+                if not (ln == "exw 65535 100 1" and V.known("C07-F5b", "%s -> %s" % (ln, b), "exw")):
                     V.violation("property fails on the implementation: the last request of '%s' never "
-                                "concluded: %s" % (ln, b), "case: %s\nimpl: %s\n" % (ln, b), "live")
+                                "concluded (no handler call, no NACK, not queued): %s" % (ln, b),
+                                "case: %s\nimpl: %s\n" % (ln, b), "live")
 
     # ------------------------------------------------------------ exc: model and library on the same line
     lines = [c[0] for c in exc]
